@@ -198,6 +198,8 @@ def instances(tier: str) -> list[dict]:
     # ... and with external libraries included (externals deeper than the limit are truncated like every other name)
     for k in (0, 1, 2):
         out.append({"part": "scan", "mp": "r", "lines": "externals", "k": k, "cap": CAPS[tier]})
+        if k in (1, 2):
+            out.append({"part": "scan", "mp": "r", "lines": "externals-filtered", "k": k, "cap": CAPS[tier]})
     ctrees = ["D5a", "D5b", "D5c", "D5p"] if tier == "quick" else ["D5a", "D5b", "D5c", "D5p", "D6a", "D6b"]
     for t in ctrees:
         nodes = TREES[t]
@@ -288,6 +290,9 @@ def _scan(base: str, mp_rel: str, k, include_externals: bool = False):
 
     try:
         kw = {"exclude_external_libraries": False} if include_externals else {}
+        if include_externals == "filtered":
+            # an external exclusion pattern that matches nothing: the option must not change the architecture
+            kw["external_exclusions"] = ("zz_no_such_library*",)
         ev = get_evaluable_architecture(os.path.join(base, "r"), os.path.join(base, mp_rel), level_limit=k, **kw)
     except Exception as e:  # noqa: BLE001
         return ("ERROR", type(e).__name__, str(e)[:120])
@@ -324,7 +329,7 @@ def work_scan(inst) -> dict:
     from vf.engine.stubs_fs import symfs
     from vf.props import c04
 
-    ext = inst["lines"] == "externals"
+    ext = "filtered" if inst["lines"] == "externals-filtered" else inst["lines"] == "externals"
     model = ext_model() if ext else c04.make_model({"mp": inst["mp"], "lines": inst["lines"], "fixed": ({"r/ab.py": False, "r/a_b": False, "r/notes.txt": False, "r/empty": False, "r/a/__init__.py": False} if inst["lines"] == "deep" else {"r/notes.txt": False, "r/empty": False})})
     mp, k = inst["mp"], inst["k"]
 
@@ -415,7 +420,7 @@ def replay_detail(payload: dict):
         from vf.props import c04
 
         i = payload["inst"]
-        ext = i["lines"] == "externals"
+        ext = "filtered" if i["lines"] == "externals-filtered" else i["lines"] == "externals"
         model = ext_model() if ext else c04.make_model({"mp": i["mp"], "lines": i["lines"], "fixed": ({"r/ab.py": False, "r/a_b": False, "r/notes.txt": False, "r/empty": False, "r/a/__init__.py": False} if i["lines"] == "deep" else {"r/notes.txt": False, "r/empty": False})})
         assign = {tuple(kk): v for kk, v in payload["assign"]}
         d = tempfile.mkdtemp(prefix="c09_", dir=os.environ.get("VERIF_SCRATCH"))
